@@ -34,6 +34,8 @@ def gen_specs(run):
             c = gen.rscalar(rng)
             base = gen.mk_member(rng, b, m, cap=m, T=T, seed=seeded, rngspec=fault, vkinds=["rand"] * m, pkinds=["none"] * m)
             base["gb0_eq_cH"] = gen.hx(c)
+            if T >= 2:
+                base["gb_eq"] = [T - 2, T - 1]        # Gb_{T-1} = Gb_{T-2}: the extended masks can be re-balanced under one commitment
             top = (1 << b) - 1
             variants = [("repeat", copy.deepcopy(base))]
             # same commitment, different opening: v' + c*r0' = v + c*r0
@@ -46,6 +48,14 @@ def gen_specs(run):
                 r02 = (r0 + (v - v2) * pow(c, -1, L)) % L
                 x["commit"][j] = {"v": str(v2), "r": [gen.hx(r02)] + x["commit"][j]["r"][1:]}
                 variants.append(("witness (same commitment)", x))
+            if T >= 2:
+                # same commitment, openings differing ONLY in the extended masks r_{T-2}, r_{T-1} (+d / -d under equal generators)
+                x = copy.deepcopy(base)
+                dlt = gen.rscalar(rng)
+                rr = x["commit"][j]["r"]
+                rr[T - 2] = gen.hx((int_of_hex_le(rr[T - 2]) + dlt) % L)
+                rr[T - 1] = gen.hx((int_of_hex_le(rr[T - 1]) - dlt) % L)
+                variants.append(("witness (same commitment, extended masks only)", x))
             x = copy.deepcopy(base)
             x["ctx"] = {"label": "other-ctx"}
             variants.append(("context", x))
